@@ -26,23 +26,24 @@ ASSUMPTIONS = [
 
 MANIFEST = {
     "text": "Coq (Properties_C09_ctx.v, model Context.v = lys_parse_in / lys_parse_load / _lys_set_implemented / lys_implement / "
-            "lys_unres_dep_sets_create / lys_compile_depset_all / lys_unres_glob_revert transcribed update by update): the full "
-            "statement failed_op_restores is REFUTED (C09_failed_op_restores_refuted; the library shows the same: 6 known findings, a 7th - the lost latest-revision flag - was fixed by /repo 21681e3 and is now a regression theorem C09_latest_flag_given_back). "
-            "Proved: C09_failed_op_restores_partial - from a reachable quiescent state (executable: nothing pending, implemented = compiled "
-            "against the current features) a failing parse / load / implement / compile that keeps the feature bits of the existing "
-            "modules (executable condition on the state at the cleanup jump) leaves obs (modules, "
-            "revisions, implemented, feature values, compiled schema, get_module_latest/implemented answers, hashed fields) unchanged, "
-            "for every failing stage and both compile modes (uses the proved invariant that exactly the newest revision of a name carries LYS_MOD_LATEST_REV in every reachable state); C09_side_conditions_necessary (each of the two conditions alone is "
-            "violated by a reachable witness that is not restored); unconditional corollaries for a syntax error and for "
-            "lys_set_implemented(m, NULL); ly_ctx_compile of a quiescent context cannot fail; parse-stage failures compile nothing "
-            "(data trees stay valid) while data_trees_still_valid and later_load_unaffected are refuted by witnesses "
-            "(revert recompiles; LYS_MOD_IMPORTED_REV stays); change count is monotone modulo 2^16. Tie: T2 ctxs (model and real "
-            "library print identical lines after every operation of random and systematic scripts, white-box fields included) and "
-            "the property oracle ctx-restore on the library itself (before/after observable, compiled YANG print hashes, data "
-            "trees, shadow context that only saw the successful operations).",
+            "lys_unres_dep_sets_create / lys_compile_depset_all / lys_unres_glob_revert transcribed update by update, as of /repo "
+            "21681e3 and af27b8d): MAIN THEOREM C09_failed_op_restores - in every reachable quiescent state (executable: nothing "
+            "pending, implemented = compiled against the current features) a failing parse / load / implement / compile leaves obs "
+            "(modules, revisions, implemented, feature values, compiled schema, get_module_latest/implemented answers, hashed fields) "
+            "unchanged, for every failing stage and both compile modes; no other hypothesis (the latest-revision invariant is proved "
+            "for all reachable states, the feature bits are restored by the revert). The full statement over all reachable states "
+            "is still REFUTED (C09_failed_op_restores_refuted / C09_quiescent_necessary: explicit compilation with pending changes); "
+            "regression theorems for the three fixed defects (C09_latest_flag_given_back, C09_feature_bits_restored); "
+            "ly_ctx_compile of a quiescent context cannot fail; parse-stage failures compile nothing (data trees stay valid) while "
+            "data_trees_still_valid and later_load_unaffected are refuted by witnesses (revert recompiles; LYS_MOD_IMPORTED_REV "
+            "stays); change count is monotone modulo 2^16. Tie: T2 ctxs (model and real library print identical lines after every "
+            "operation of random and systematic scripts, white-box fields included) and the property oracles on the library itself: "
+            "ctx-restore (before/after observable, compiled YANG print hashes, data trees, shadow context that only saw the "
+            "successful operations) and ctx-rich (modules with identities, submodules with own imports, augments, deviations: "
+            "identity derived[] sets, augmented_by/deviated_by back-links, compiled prints, shadow context).",
     "note": "The compiled schema is abstract (which features of the module and of its imports were enabled, plus whether disabled "
             "nodes were already removed). Not modelled: see ASSUMPTIONS. Preservation of quiescence by successful operations is "
-            "tested on the model (oracle ctx-model-inv), not proved. About 77% of the failing operations of random scripts satisfy "
-            "the conditions of the partial theorem; the others are instances of the known findings.",
+            "tested on the model (oracle ctx-model-inv), not proved. About 85% of the failing operations of random scripts start "
+            "from a quiescent state (covered by the main theorem); the others are explicit-compile states with pending changes.",
     "technique": "Coq proof over hand-written model + differential correspondence (extracted OCaml vs C) + property oracle on the implementation",
 }
